@@ -176,182 +176,211 @@ theorem readSlice_fuel (B : Nat) : ∀ (fuel : Nat) (s : St), measure s.pieces <
               apply readSlice_fuel B fuel
               simp only [measure, List.length_drop] at h ⊢; omega
 
+/-- `ReadSlice` does not touch the reader's pending partial line -/
+theorem readSlice_pend (B : Nat) : ∀ (fuel : Nat) (s : St), (readSlice B fuel s).1.pend = s.pend
+  | 0, s => by simp [readSlice]
+  | fuel+1, s => by
+    simp only [readSlice]
+    cases hs : splitNL s.buf with
+    | some lr => rfl
+    | none =>
+      simp only []
+      by_cases hB : B ≤ s.buf.length
+      · simp [hB]
+      · simp only [hB, if_false]
+        cases hp : s.pieces with
+        | nil => rfl
+        | cons p ps =>
+          cases p with
+          | eof => rfl
+          | cancel => simp only []; rw [readSlice_pend B fuel]
+          | data d =>
+            simp only []
+            by_cases hd : d.length ≤ B - s.buf.length
+            · simp only [hd, if_true]; rw [readSlice_pend B fuel]
+            · simp only [hd, if_false]; rw [readSlice_pend B fuel]
+
 /-! ## readLine -/
 
-def RL.out : RL → Bytes
-  | .line l => l
-  | .eof => []
-  | .closed p => p
-  | .oof p => p
-
-/-- **byte conservation of `readLine`** (with its accumulated partial line `acc`) -/
-theorem readLineGo_conserve (B : Nat) : ∀ (fuel : Nat) (s : St) (acc : Bytes),
-    (readLineGo B fuel s acc).2.out ++ (readLineGo B fuel s acc).1.buf ++ flat (readLineGo B fuel s acc).1.pieces
-      = acc ++ (s.buf ++ flat s.pieces)
-  | 0, s, acc => by simp [readLineGo, RL.out]
-  | fuel+1, s, acc => by
-    simp only [readLineGo]
-    by_cases hc : s.cancelled = true
-    · simp [hc, RL.out]
-    · simp only [hc, Bool.false_eq_true, if_false]
-      have hcons := readSlice_conserve B (sliceFuel s) s
-      cases hr : readSlice B (sliceFuel s) s with
-      | mk s' r =>
-        rw [hr] at hcons
-        simp only [] at hcons
-        cases r with
-        | line l =>
-          simp only [RL.out]; rw [← hcons]; simp [RS.out]
-        | full l =>
-          simp only [RL.out]; rw [← hcons]; simp [RS.out]
-        | eof l =>
-          simp only []
-          by_cases he : (acc ++ l).isEmpty = true
-          · simp only [he, if_true, RL.out]
-            rw [← hcons]
-            have : acc = [] ∧ l = [] := by simpa using he
-            simp [RS.out, this.1, this.2]
-          · simp only [he, Bool.false_eq_true, if_false]
-            rw [readLineGo_conserve B fuel s' (acc ++ l), ← hcons]
-            simp [RS.out]
-        | oof =>
-          simp only [RL.out]; rw [← hcons]; simp [RS.out]
+/-- **byte conservation of `readLine`**: what the call hands out, the pending partial line, bufio's buffer and
+what the source still holds are together exactly what they were before the call. -/
+theorem readLine_conserve (B : Nat) (s : St) :
+    (readLine B s).2.out ++ (readLine B s).1.pend ++ (readLine B s).1.buf ++ flat (readLine B s).1.pieces
+      = s.pend ++ s.buf ++ flat s.pieces := by
+  unfold readLine
+  by_cases hc : s.cancelled = true
+  · simp [hc, RL.out]
+  · simp only [hc, Bool.false_eq_true, if_false]
+    have hcons := readSlice_conserve B (sliceFuel s) s
+    have hpend := readSlice_pend B (sliceFuel s) s
+    cases hr : readSlice B (sliceFuel s) s with
+    | mk s' r =>
+      rw [hr] at hcons hpend
+      simp only [] at hcons hpend
+      cases r with
+      | line l =>
+        simp only [RL.out, RS.out] at hcons ⊢
+        simp only [List.append_assoc, List.nil_append, List.append_nil] at hcons ⊢
+        rw [hcons]
+      | full l =>
+        simp only [RL.out, RS.out] at hcons ⊢
+        simp only [List.append_assoc, List.nil_append, List.append_nil] at hcons ⊢
+        rw [hcons]
+      | eof l =>
+        simp only [RL.out, RS.out] at hcons ⊢
+        simp only [List.append_assoc, List.nil_append, List.append_nil] at hcons ⊢
+        rw [hcons]
+      | oof =>
+        simp only [RL.out, RS.out] at hcons ⊢
+        simp only [List.append_assoc, List.nil_append, List.append_nil] at hcons ⊢
+        rw [hcons, hpend]
 
 /-- shape of a returned line: it ends with the newline, or it is at least one buffer long (a split, nothing
 dropped); and no newline occurs before its last byte (lines are cut at the *first* newline) -/
 def lineOk (B : Nat) (l : Bytes) : Prop :=
   (l.getLast? = some 10 ∨ B ≤ l.length) ∧ (10 : UInt8) ∉ l.dropLast
 
-theorem dropLast_append_of_ne_nil (a l : Bytes) (h : l ≠ []) : (a ++ l).dropLast = a ++ l.dropLast := by
-  exact List.dropLast_append_of_ne_nil h
+/-- the pending partial line holds no newline -/
+def PendOk (s : St) : Prop := (10 : UInt8) ∉ s.pend
 
-theorem readLineGo_shape (B : Nat) : ∀ (fuel : Nat) (s : St) (acc : Bytes) (l : Bytes), (10 : UInt8) ∉ acc →
-    (readLineGo B fuel s acc).2 = .line l → lineOk B l
-  | 0, s, acc, l, _, h => by simp [readLineGo] at h
-  | fuel+1, s, acc, l, hacc, h => by
-    simp only [readLineGo] at h
-    by_cases hc : s.cancelled = true
-    · simp [hc] at h
-    · simp only [hc, Bool.false_eq_true, if_false] at h
-      have hsh := readSlice_shape B (sliceFuel s) s
-      cases hr : readSlice B (sliceFuel s) s with
-      | mk s' r =>
-        rw [hr] at hsh h
-        simp only [] at hsh h
-        cases r with
-        | line l0 =>
-          simp only [RL.line.injEq] at h; subst h
-          obtain ⟨h1, h2⟩ := hsh
-          have hne : l0 ≠ [] := by intro e; subst e; simp at h1
-          refine ⟨Or.inl ?_, ?_⟩
-          · rw [List.getLast?_append, h1]; simp
-          · rw [List.dropLast_append_of_ne_nil hne]
-            simp only [List.mem_append, not_or]; exact ⟨hacc, h2⟩
-        | full l0 =>
-          simp only [RL.line.injEq] at h; subst h
-          obtain ⟨h1, h2⟩ := hsh
-          refine ⟨Or.inr (by simp; omega), ?_⟩
-          intro hm
-          have : (10 : UInt8) ∈ acc ++ l0 := List.dropLast_subset _ hm
-          simp only [List.mem_append] at this
-          rcases this with h | h
-          · exact hacc h
-          · exact h2 h
-        | eof l0 =>
-          simp only [] at h
-          by_cases he : (acc ++ l0).isEmpty = true
-          · simp [he] at h
-          · simp only [he, Bool.false_eq_true, if_false] at h
-            apply readLineGo_shape B fuel s' (acc ++ l0) l _ h
-            simp only [List.mem_append, not_or]; exact ⟨hacc, hsh⟩
-        | oof => simp at h
+theorem readLine_pendOk (B : Nat) (s : St) (h : PendOk s) : PendOk (readLine B s).1 := by
+  unfold readLine
+  by_cases hc : s.cancelled = true
+  · simpa [hc] using h
+  · simp only [hc, Bool.false_eq_true, if_false]
+    have hsh := readSlice_shape B (sliceFuel s) s
+    have hpend := readSlice_pend B (sliceFuel s) s
+    cases hr : readSlice B (sliceFuel s) s with
+    | mk s' r =>
+      rw [hr] at hsh hpend
+      simp only [] at hsh hpend
+      cases r with
+      | line l => simp [PendOk]
+      | full l => simp [PendOk]
+      | eof l =>
+        simp only [PendOk, List.mem_append, not_or]
+        exact ⟨h, hsh⟩
+      | oof => simp only [PendOk]; rw [hpend]; exact h
+
+theorem readLine_shape (B : Nat) (s : St) (h : PendOk s) (l : Bytes) (hl : (readLine B s).2 = .line l) :
+    lineOk B l := by
+  unfold readLine at hl
+  by_cases hc : s.cancelled = true
+  · simp [hc] at hl
+  · simp only [hc, Bool.false_eq_true, if_false] at hl
+    have hsh := readSlice_shape B (sliceFuel s) s
+    cases hr : readSlice B (sliceFuel s) s with
+    | mk s' r =>
+      rw [hr] at hsh hl
+      simp only [] at hsh hl
+      cases r with
+      | line l0 =>
+        simp only [RL.line.injEq] at hl; subst hl
+        obtain ⟨h1, h2⟩ := hsh
+        have hne : l0 ≠ [] := by intro e; subst e; simp at h1
+        refine ⟨Or.inl ?_, ?_⟩
+        · rw [List.getLast?_append, h1]; simp
+        · rw [List.dropLast_append_of_ne_nil hne]
+          simp only [List.mem_append, not_or]; exact ⟨h, h2⟩
+      | full l0 =>
+        simp only [RL.line.injEq] at hl; subst hl
+        obtain ⟨h1, h2⟩ := hsh
+        refine ⟨Or.inr (by simp; omega), ?_⟩
+        intro hm
+        have : (10 : UInt8) ∈ s.pend ++ l0 := List.dropLast_subset _ hm
+        simp only [List.mem_append] at this
+        rcases this with h' | h'
+        · exact h h'
+        · exact h2 h'
+      | eof l0 => simp at hl
+      | oof => simp at hl
+
+/-- with nothing buffered and the source reporting EOF for now, one call answers EOF at once and keeps the
+pending partial line as it is (the worker's "one more poll") -/
+theorem readLine_at_source_eof (B : Nat) (s : St) (ps : List Piece) (hc : s.cancelled = false) (hb : s.buf = [])
+    (hB : 0 < B) (hp : s.pieces = .eof :: ps) :
+    readLine B s = ({ s with pieces := ps, buf := [], pend := s.pend }, .eof) := by
+  unfold readLine
+  simp [hc, sliceFuel, hp, measure, readSlice, hb, splitNL, Nat.not_le.mpr hB]
 
 /-! ## several calls -/
 
 theorem readLines_conserve (B : Nat) : ∀ (n : Nat) (s : St),
-    (readLines B n s).1.flatten ++ pendingOf (readLines B n s).2.2 ++ (readLines B n s).2.1.buf
-        ++ flat (readLines B n s).2.1.pieces
-      = s.buf ++ flat s.pieces
-  | 0, s => by simp [readLines, pendingOf]
+    (readLines B n s).1.flatten ++ (readLines B n s).2.pend ++ (readLines B n s).2.buf
+        ++ flat (readLines B n s).2.pieces
+      = s.pend ++ s.buf ++ flat s.pieces
+  | 0, s => by simp [readLines]
   | n+1, s => by
     simp only [readLines]
-    have hc := readLineGo_conserve B (s.pieces.length + 2) s []
+    have hc := readLine_conserve B s
     cases hr : readLine B s with
     | mk s' r =>
-      unfold readLine at hr
       rw [hr] at hc
-      simp only [List.nil_append] at hc
+      simp only [] at hc
+      have ih := readLines_conserve B n s'
       cases r with
       | line l =>
-        simp only [List.flatten_cons]
-        have ih := readLines_conserve B n s'
-        simp only [RL.out] at hc
+        simp only [List.flatten_cons, RL.out] at hc ⊢
         rw [← hc]
         simp only [List.append_assoc] at ih ⊢
         rw [ih]
-      | eof => simp only [RL.out] at hc; simp [pendingOf, RL.pending, ← hc]
-      | closed p => simp only [RL.out] at hc; simp [pendingOf, RL.pending, ← hc]
-      | oof p => simp only [RL.out] at hc; simp [pendingOf, RL.pending, ← hc]
+      | eof => simp only [RL.out, List.nil_append] at hc ⊢; rw [ih, hc]
+      | closed => simp only [RL.out, List.nil_append] at hc ⊢; rw [ih, hc]
+      | oof => simp only [RL.out, List.nil_append] at hc ⊢; rw [ih, hc]
 
-theorem readLines_shape (B : Nat) : ∀ (n : Nat) (s : St) (l : Bytes), l ∈ (readLines B n s).1 → lineOk B l
-  | 0, s, l, h => by simp [readLines] at h
-  | n+1, s, l, h => by
-    simp only [readLines] at h
+theorem readLines_shape (B : Nat) : ∀ (n : Nat) (s : St), PendOk s →
+    ∀ l ∈ (readLines B n s).1, lineOk B l
+  | 0, s, _ => by simp [readLines]
+  | n+1, s, hp => by
+    intro l hl
+    simp only [readLines] at hl
+    have hp' := readLine_pendOk B s hp
     cases hr : readLine B s with
     | mk s' r =>
-      rw [hr] at h
+      rw [hr] at hl hp'
       cases r with
       | line l0 =>
-        simp only [List.mem_cons] at h
-        rcases h with h | h
-        · subst h
-          unfold readLine at hr
-          exact readLineGo_shape B _ s [] l (by simp) (by rw [hr])
-        · exact readLines_shape B n s' l h
-      | eof => simp at h
-      | closed p => simp at h
-      | oof p => simp at h
+        simp only [List.mem_cons] at hl
+        rcases hl with hl | hl
+        · subst hl; exact readLine_shape B s hp l (by rw [hr])
+        · exact readLines_shape B n s' hp' l hl
+      | eof => exact readLines_shape B n s' hp' l hl
+      | closed => exact readLines_shape B n s' hp' l hl
+      | oof => exact readLines_shape B n s' hp' l hl
 
 /-! ## parser offsets -/
 
+theorem nextRecord_lr (B : Nat) (p : Parser) : (nextRecord B p).1.lr = (readLine B p.lr).1 := by
+  unfold nextRecord
+  cases hl : readLine B p.lr with
+  | mk s' rl => cases rl <;> rfl
+
+theorem nextRecord_pos (B : Nat) (p : Parser) :
+    (nextRecord B p).1.pos = p.pos + (match (nextRecord B p).2 with | .record l => l.length | _ => 0) := by
+  unfold nextRecord
+  cases hl : readLine B p.lr with
+  | mk s' rl => cases rl <;> simp
+
 theorem nextRecords_pos (B : Nat) : ∀ (n : Nat) (p : Parser),
-    (nextRecords B n p).2.1.pos = p.pos + (nextRecords B n p).1.flatten.length
+    (nextRecords B n p).2.pos = p.pos + (nextRecords B n p).1.flatten.length
   | 0, p => by simp [nextRecords]
   | n+1, p => by
     simp only [nextRecords]
+    have hpos := nextRecord_pos B p
     cases hr : nextRecord B p with
     | mk p' r =>
+      rw [hr] at hpos
+      simp only [] at hpos
       cases r with
       | record l =>
         simp only [List.flatten_cons, List.length_append]
-        rw [nextRecords_pos B n p']
-        have : p'.pos = p.pos + l.length := by
-          unfold nextRecord at hr
-          cases hl : readLine B p.lr with
-          | mk s' rl =>
-            rw [hl] at hr
-            cases rl <;> simp at hr
-            obtain ⟨h1, h2⟩ := hr
-            subst h2; rw [← h1]
-        omega
-      | eof =>
-        simp
-        unfold nextRecord at hr
-        cases hl : readLine B p.lr with
-        | mk s' rl =>
-          rw [hl] at hr
-          cases rl <;> simp at hr <;> (try (rw [← hr]))
-      | err =>
-        simp
-        unfold nextRecord at hr
-        cases hl : readLine B p.lr with
-        | mk s' rl =>
-          rw [hl] at hr
-          cases rl <;> simp at hr <;> (try (rw [← hr.1])) <;> (try (rw [← hr]))
+        rw [nextRecords_pos B n p']; simp only [] at hpos; omega
+      | eof => simp only []; rw [nextRecords_pos B n p']; simp only [] at hpos; omega
+      | err => simp only []; rw [nextRecords_pos B n p']; simp only [] at hpos; omega
 
 /-- the records a parser returns are exactly the lines its reader returns -/
 theorem nextRecords_lines (B : Nat) : ∀ (n : Nat) (p : Parser),
-    (nextRecords B n p).1 = (readLines B n p.lr).1 ∧ (nextRecords B n p).2.1.lr = (readLines B n p.lr).2.1
+    (nextRecords B n p).1 = (readLines B n p.lr).1 ∧ (nextRecords B n p).2.lr = (readLines B n p.lr).2
   | 0, p => by simp [nextRecords, readLines]
   | n+1, p => by
     simp only [nextRecords, readLines, nextRecord]
@@ -363,38 +392,8 @@ theorem nextRecords_lines (B : Nat) : ∀ (n : Nat) (p : Parser),
         have := nextRecords_lines B n { lr := s', pos := p.pos + l.length }
         simp only [] at this
         exact ⟨by rw [this.1], this.2⟩
-      | eof => simp
-      | closed q => simp
-      | oof q => simp
-
-end Logrange.LineReader
-
-namespace Logrange.LineReader
-
-/-- while a partial line is pending, `readLine` never reports EOF (it keeps polling until a newline, a full buffer
-or the cancellation) -/
-theorem readLineGo_pending_never_eof (B : Nat) : ∀ (fuel : Nat) (s : St) (acc : Bytes), acc ≠ [] →
-    (readLineGo B fuel s acc).2 ≠ .eof
-  | 0, s, acc, _ => by simp [readLineGo]
-  | fuel+1, s, acc, h => by
-    simp only [readLineGo]
-    by_cases hc : s.cancelled = true
-    · simp [hc]
-    · simp only [hc, Bool.false_eq_true, if_false]
-      cases hr : readSlice B (sliceFuel s) s with
-      | mk s' r =>
-        cases r with
-        | line l => simp
-        | full l => simp
-        | oof => simp
-        | eof l =>
-          simp only []
-          have hne : (acc ++ l).isEmpty = false := by
-            cases acc with
-            | nil => exact absurd rfl h
-            | cons a as => rfl
-          simp only [hne, Bool.false_eq_true, if_false]
-          exact readLineGo_pending_never_eof B fuel s' (acc ++ l) (by
-            intro e; rw [e] at hne; simp at hne)
+      | eof => simp only []; exact nextRecords_lines B n { p with lr := s' }
+      | closed => simp only []; exact nextRecords_lines B n { p with lr := s' }
+      | oof => simp only []; exact nextRecords_lines B n { p with lr := s' }
 
 end Logrange.LineReader
